@@ -1,5 +1,6 @@
 import FmpRpc.Proofs.TransportInv
 import FmpRpc.Proofs.TransportInvA4
+import FmpRpc.Proofs.TransportInvA6
 import FmpRpc.Props.C02
 /-
   C03 — the outgoing byte stream is a sequence of whole, size-limited frames.
@@ -61,6 +62,68 @@ theorem oversize_is_local (s s' : T.St) (c : Nat) (h : T.step s (.cEnc c false) 
     · intro c' hc'; simp [hc']
     · intro x hx; simp [hx]
   · simp at h
+
+open FmpRpc.T in
+/-- The cancellation of a call that was itself refused for its method name can be
+    refused by `encodeFrame` too (`EncodeAndWriteAsync`: `ch <- err; return 0, ch`).
+    That refusal is as local as the call's: nothing is handed to the writer, nothing
+    is written, no send notifier runs, the pending table, the receive loop, every
+    notifier, every handler, every other caller and every other send are unchanged;
+    the caller only moves on to its non-blocking receive; the new send is completed
+    at once with `toobig` in its slot, `fits = false`, and it is not in the write log. -/
+theorem oversize_cancel_is_local (s s' : T.St) (c : Nat) (hr : T.Reachable s)
+    (h : T.step s (.cCancelEncFail c) = some s') :
+    s'.wlog = s.wlog ∧ s'.nlog = s.nlog ∧ s'.w = s.w ∧ s'.pending = s.pending ∧ s'.r = s.r ∧
+    s'.nextSeq = s.nextSeq ∧ s'.stopCh = s.stopCh ∧ s'.encDone = s.encDone ∧
+    s'.notifiers = s.notifiers ∧ s'.handlers = s.handlers ∧ s'.tasks = s.tasks ∧
+    (∀ c', c' ≠ c → s'.callers c' = s.callers c') ∧
+    s'.callers c = { s.callers c with pc := .cPoll s.nextSend } ∧
+    (∀ x, x ≠ s.nextSend → s'.sends x = s.sends x) ∧
+    s'.nextSend = s.nextSend + 1 ∧
+    (s'.sends s.nextSend).kind = .cancel ∧ (s'.sends s.nextSend).who = c ∧
+    (s'.sends s.nextSend).seq = (s.callers c).seq ∧ (s'.sends s.nextSend).async = false ∧
+    (s'.sends s.nextSend).st = .completed ∧ (s'.sends s.nextSend).slot = some .toobig ∧
+    (s'.sends s.nextSend).fits = false ∧
+    s.nextSend ∉ s'.wlog := by
+  have hlt := wlog_lt s (SInv_reach s hr) (WInv_reach s hr)
+  have hnot : s.nextSend ∉ s.wlog := fun hx => Nat.lt_irrefl _ (hlt _ (by simp [hx]))
+  simp only [T.step] at h
+  split at h
+  · injection h with h; subst h
+    simp
+    refine ⟨?_, ?_, hnot⟩
+    · intro c' hc'; simp [hc']
+    · intro x hx; simp [hx]
+  · simp at h
+
+open FmpRpc.T in
+/-- a run from a reachable state ends in a reachable state, and never changes
+    the `fits` flag of a send that exists already -/
+theorem run_reachable_fits (l : List T.Act) (s t : T.St) (hr : T.Reachable s) (h : T.run s l = some t) :
+    T.Reachable t ∧ ∀ x, x < s.nextSend → (t.sends x).fits = (s.sends x).fits := by
+  induction l generalizing s with
+  | nil => simp only [T.run] at h; injection h with h; subst h; exact ⟨hr, fun _ _ => rfl⟩
+  | cons a l ih =>
+    simp only [T.run] at h
+    split at h
+    · rename_i s1 hs1
+      obtain ⟨hle, hst⟩ := step_frame s s1 a hs1
+      obtain ⟨hr', hf⟩ := ih s1 (.step s s1 a hr hs1) h
+      exact ⟨hr', fun x hx => (hf x (Nat.lt_of_lt_of_le hx hle)).trans (hst x hx).2.2.2.2⟩
+    · simp at h
+
+open FmpRpc.T in
+/-- ... and it never gets there: whatever happens after the refused cancellation,
+    its send id never appears in the write log. -/
+theorem oversize_cancel_never_written (s s' : T.St) (c : Nat) (hr : T.Reachable s)
+    (h : T.step s (.cCancelEncFail c) = some s') (l : List T.Act) (t : T.St) (ht : T.run s' l = some t) :
+    s.nextSend ∉ t.wlog := by
+  obtain ⟨-, -, -, -, -, -, -, -, -, -, -, -, -, -, hn, -, -, -, -, -, -, hf, -⟩ := oversize_cancel_is_local s s' c hr h
+  obtain ⟨hrt, hfits⟩ := run_reachable_fits l s' t (.step s s' _ hr h) ht
+  intro hx
+  have h1 := ((writes_are_frames t hrt).2 _ hx).1
+  rw [hfits _ (by omega), hf] at h1
+  exact absurd h1 (by simp)
 
 open FmpRpc.T in
 /-- A sender whose context ends, or that finds the encoder closed, abandons
